@@ -52,6 +52,31 @@ func extractC04() {
 		scan(fd.Body)
 	}
 	g.def("tunnelSockopts", "List String", leanList(found))
+	// the methods the closeWrite helper calls on the connection it is given (whatever its temporaries are called)
+	var cwCalls []string
+	if fd := funcDecl(f, "Proxy", "handleConnectRequest"); fd != nil && fd.Body != nil {
+		ast.Inspect(fd.Body, func(x ast.Node) bool {
+			as, ok := x.(*ast.AssignStmt)
+			if !ok || len(as.Lhs) != 1 || len(as.Rhs) != 1 {
+				return true
+			}
+			id, ok := as.Lhs[0].(*ast.Ident)
+			fl, ok2 := as.Rhs[0].(*ast.FuncLit)
+			if !ok || !ok2 || id.Name != "closeWrite" {
+				return true
+			}
+			ast.Inspect(fl.Body, func(y ast.Node) bool {
+				if c, ok := y.(*ast.CallExpr); ok {
+					if sel, ok := c.Fun.(*ast.SelectorExpr); ok {
+						cwCalls = append(cwCalls, sel.Sel.Name)
+					}
+				}
+				return true
+			})
+			return false
+		})
+	}
+	g.def("closeWriteCalls", "List String", leanList(cwCalls))
 	// non-vacuity of the scan: the blind part was found and has statements
 	g.def("blindStatementsScanned", "Bool", map[bool]string{true: "true", false: "false"}[nBlind >= 10])
 }
